@@ -126,6 +126,13 @@ func (m *Model) Occupying(n string) []*v1.Pod {
 
 // GroupsOf returns the GPU groups a pod is attached to (labels, or its live BindRequest).
 func (m *Model) GroupsOf(p *v1.Pod) []string {
+	if br, ok := m.BRs[p.Namespace+"/"+p.Name]; ok && p.Spec.NodeName == "" && p.DeletionTimestamp == nil && len(br.Spec.SelectedGPUGroups) > 0 {
+		// not bound yet: the request says where the pod is going; group labels on the pod may be left-overs of an
+		// earlier attempt that died half-way (possibly on another node)
+		gs := append([]string(nil), br.Spec.SelectedGPUGroups...)
+		sort.Strings(gs)
+		return gs
+	}
 	gs := k8sm.PodGPUGroups(p)
 	if len(gs) == 0 {
 		if br, ok := m.BRs[p.Namespace+"/"+p.Name]; ok && p.Spec.NodeName == "" {
